@@ -30,7 +30,7 @@ type helloCase struct {
 	Regrease    []int    `json:"regrease"` // high nibbles used, in order, for the GREASE values of the second hello
 }
 
-var sniNames = []string{"example.com", "a.test", "honey.trap.example.org"}
+var sniNames = []string{"example.com", "a.test", "honey.trap.example.org", "Login.Example.COM"}
 
 // extension types whose bodies the vendored stack parses (a body must be well-formed)
 var structured = map[uint16]bool{0: true, 5: true, 10: true, 11: true, 13: true, 16: true, 18: true, 35: true, 13172: true, 0xff01: true}
